@@ -110,11 +110,26 @@ type vversion struct {
 // Symmetry: the keys' hashes are arbitrary and identically constrained, so keys are numbered in
 // order of first use (an operation names a key used before or the next fresh one); lookups probe
 // every key used so far and one fresh key (all unused keys are interchangeable).
-func vmap(nk, nops int) {
+func vmap(nk, nops int) { vmapFrom(nk, 0, nops) }
+
+// vmapFrom is vmap after a prologue: the first pre keys are put (arbitrary values) and the table
+// is frozen once (a version that must stay intact) before the script starts.
+func vmapFrom(nk, pre, nops int) {
 	ht := Hamt[int, *vItem]{}.Mutable()
 	var m vmodel
 	var versions []vversion
 	used := 0
+	for k := 0; k < pre; k++ {
+		v := int(rt.Byte("pv"))
+		ht.Put(&vItem{key: k, val: v})
+		m.has[k], m.val[k] = true, v
+		used++
+	}
+	if pre > 0 {
+		fz := ht.Freeze()
+		versions = append(versions, vversion{fz, m})
+		ht = fz.Mutable()
+	}
 	for step := 0; step < nops; step++ {
 		nkeys := min(used+1, nk) // keys used so far and one fresh key
 		op := rt.Pick("op", 2*nkeys+1)
@@ -154,6 +169,20 @@ func vmap(nk, nops int) {
 	}
 	rt.Observe("content", n)
 	rt.Observe("versions", len(versions))
+}
+
+// C15 K1b: from a frozen table that already holds 3 keys (colliding hash prefixes, so that one
+// key sits in a node above a child holding the other two): 2 further operations (thorough 3); the
+// frozen version and every later one stay intact (path copying on delete/pull-up and put).
+//
+//symgo:harness prop=C15 tier=quick shards=8 tshards=16 timeout=400 ttimeout=1700 bounds=3_keys_already_present_and_frozen;then_scripts_of_2_ops(thorough_3);hash_digits_in_{0,1}_at_trie_levels_0_and_1
+func VerifC15MapAfter3() {
+	vhashes(3, []int{0, 1}, []int{2, 2})
+	n := 2
+	if rt.Thorough() {
+		n = 3
+	}
+	vmapFrom(3, 3, n)
 }
 
 // C15 K1: the generic persistent hash trie is a map, and older versions never change (see vmap).
